@@ -162,7 +162,14 @@ func (r *Run) Cases(group string, n, workers int, fn func(i int, rng *rand.Rand)
 		go func() {
 			defer wg.Done()
 			for i := range ch {
-				fn(i, r.CaseRand(group, i))
+				// each case in its own goroutine: under -race synctest.Test may end the calling
+				// goroutine (t.FailNow => Goexit) and must not take the worker with it
+				done := make(chan struct{})
+				go func() {
+					defer close(done)
+					fn(i, r.CaseRand(group, i))
+				}()
+				<-done
 			}
 		}()
 	}
